@@ -4,35 +4,11 @@ From Coq Require String. Import String.StringSyntax.
 From Coq Require Import List Bool Lia PeanoNat.
 From Statham.Model Require Import Str Json Elem Sub Equality PyNum Validate Tables Spec6 SerJson Resolve NfFrag SerFrag EqFrag ClsFrag RunSer DefsFrag.
 From Statham.Proofs Require Import StrFacts ElemInd JsonEqProof EqualityProof C03Lookup C06RoundBase C01Vm C01Items C03Meaning C17Cong
-     C03Resolve C03Classes C03Doc C17Classes C03Defs.
+     C03Resolve C03Classes C03Doc C17Classes C03Defs EqDepth.
 Import ListNotations.
 Local Open Scope string_scope.
 Local Open Scope list_scope.
 Arguments s_ : simpl never.
-
-(* ---- depth ---- *)
-Lemma max_ge {A} (g : A -> nat) l x : In x l -> g x <= fold_right Nat.max 0 (map g l).
-Proof. induction l as [|a r IH]; intros H; [contradiction|]. destruct H as [->|H]; simpl; [lia|]. specialize (IH H). lia. Qed.
-Lemma max_le {A} (g : A -> nat) l m : (forall x, In x l -> g x <= m) -> fold_right Nat.max 0 (map g l) <= m.
-Proof.
-  induction l as [|a r IH]; intros H; simpl; [lia|].
-  assert (g a <= m) by (apply H; now left). assert (fold_right Nat.max 0 (map g r) <= m) by (apply IH; intros; apply H; now right). lia.
-Qed.
-
-Lemma depth_dle : forall f y, depth_f f y < f -> dle (depth_f f y) y.
-Proof.
-  induction f as [|f IH]; intros y H; [lia|]. cbn [depth_f] in *. constructor.
-  apply Forall_forall. intros x Hx.
-  pose proof (max_ge (depth_f f) (children y) x Hx) as Hm.
-  apply (dle_mono (depth_f f x)); [apply IH; lia|exact Hm].
-Qed.
-
-Lemma dle_depth : forall m y, dle m y -> forall f, depth_f f y <= m.
-Proof.
-  induction m as [|m IH]; intros y H f; inversion H as [? ? Hc]; subst.
-  destruct f as [|f]; cbn [depth_f]; [lia|]. apply le_n_S. apply max_le. intros x Hx.
-  rewrite Forall_forall in Hc. exact (IH x (Hc x Hx) f).
-Qed.
 
 (* ---- nodes ---- *)
 Lemma reach_snoc r y x : reach r y -> In x (children y) -> reach r x.
@@ -90,7 +66,7 @@ Theorem doc_meaning_defs O cd classes fuel e :
 Proof.
   intros H Hne. unfold cd_okb in H. set (DJ := defs_doc cd classes) in *.
   destruct (nodes_all fuel (e :: map snd cd)) as [ns|] eqn:En; [|discriminate].
-  apply andb_true_iff in H as [H K0]. apply andb_true_iff in H as [H K1]. apply andb_true_iff in H as [H K2].
+  apply andb_true_iff in H as [H K2].
   apply andb_true_iff in H as [H K3]. apply andb_true_iff in H as [K5 K4].
   set (roots := e :: map snd cd) in *.
   set (node := fun y => exists r, In r roots /\ reach r y).
@@ -112,14 +88,10 @@ Proof.
   { intros key d Hin. rewrite forallb_forall in K2. specialize (K2 _ Hin). unfold has_doc in K2. cbn [fst snd] in K2. fold DJ in K2.
     destruct (lookup key DJ) as [j|]; [|discriminate]. apply json_eqb_eq in K2. now subst. }
   assert (Hdepth : forall key d c m, In (key, d) cd -> node c -> elem_eq d c = true -> dle m c -> dle m d).
-  { intros key d c m Hin Hc He Hd. rewrite forallb_forall in K1. specialize (K1 _ Hin). cbn [snd] in K1.
-    apply andb_true_iff in K1 as [Hlt Hall]. apply Nat.ltb_lt in Hlt. rewrite forallb_forall in Hall.
-    specialize (Hall c (Hns c Hc)). rewrite He in Hall. cbn [implb] in Hall. apply Nat.leb_le in Hall.
-    pose proof (dle_depth m c Hd fuel) as Hcm.
-    apply (dle_mono (depth_f fuel d)); [exact (depth_dle fuel d Hlt)|lia]. }
+  { intros key d c m _ _ He Hd. exact (dle_eq m d c He Hd). }
   assert (Ne : node e) by (exists e; split; [now left|apply reach_refl]).
-  apply Nat.ltb_lt in K0.
-  destruct (resolve_top O cd DJ node Hchild Hdef Hgood Hcls Hkey Hdepth _ e Ne (depth_dle fuel e K0)) as (n0 & Hres).
+  destruct (dle_exists e) as (m0 & Hm0).
+  destruct (resolve_top O cd DJ node Hchild Hdef Hgood Hcls Hkey Hdepth m0 e Ne Hm0) as (n0 & Hres).
   exists n0. intros n Hn. destruct (Hres n Hn) as (R & ER & (Hs & Hf & _)). exists R. split.
   - assert (Hb : exists body, serD cd e = JObj body).
     { destruct e; try (eexists; reflexivity). congruence. }
